@@ -184,15 +184,17 @@ ServedSeq(r, cache, k) ==
     ELSE LET o == StepObj(r, cache, k) pt == r.in.steps[k].fn IN
          <<Served(cache, o, pt)[1]>> \o ServedSeq(r, CachePut(cache, o, pt), k + 1)
 HistIn(r, who) == [md |-> r.in.models[who], d |-> r.in.d, eps |-> r.in.eps, boots |-> r.in.boots, adj |-> r.in.adj,
-                   nested |-> r.in.nested]
+                   nested |-> r.in.nested, full |-> r.in.full]
+StatFns == {"fim", "gim", "lrt", "wald", "score"}
 FHistory(r) ==
     IF Raised(r) THEN {"Raised"} ELSE
     LET n == Len(r.in.steps)
         served == ServedSeq(r, <<>>, 1)
         \* closed forms once per (model, function) of the history
-        exp == TLCEval([w \in {"A", "B"} |-> TLCEval([fn \in {"fim", "lrt"} |->
+        exp == TLCEval([w \in {"A", "B"} |-> TLCEval([fn \in StatFns |->
                           IF \E k \in 1..n : served[k] = w /\ r.in.steps[k].fn = fn THEN Expected(fn, HistIn(r, w)) ELSE [dec |-> TRUE]])])
-    IN  F("HistoryLength", Len(r.out.res) = n /\ Len(r.out.fresh) = n) \cup
+    IN  F("HistoryFunctions", \A k \in 1..n : r.in.steps[k].fn \in StatFns) \cup
+        F("HistoryLength", Len(r.out.res) = n /\ Len(r.out.fresh) = n) \cup
         (IF Len(r.out.res) = n /\ Len(r.out.fresh) = n
          THEN F("ServedOwnModel", \A k \in 1..n :
                     LET fn == r.in.steps[k].fn e == exp[served[k]][fn] IN
